@@ -1,46 +1,15 @@
 (* Model/DispatchC06.v — entry points of the C06 models for the OCaml driver and the vm_compute cross-check.
    An operand is 12 integers: year month day hour minute second microsecond offset has_tz tzname tzobj is_datetime.
+   A history (entries 9 / 10) is 25 integers per step: tag (1 Interval, 2 direct helper call) and two operands; its result is 0 followed by
+   every list a step reports, each preceded by its length (Model/PdHistory.v).
    Result encoding: 0 :: values, [1; exn code], [3] = outside the model's domain (the UTC instant of an aware operand is not
    representable: CPython raises OverflowError when it shifts), [9] bad call. *)
 From Coq Require Import ZArith List Bool.
-From PV Require Import Lib.PyBase Spec.Cal Gen.Constants Gen.Helpers Model.PdBase Gen.PreciseDiff Model.RustPreciseDiff Model.PdInterval.
+From PV Require Import Lib.PyBase Spec.Cal Gen.Constants Gen.Helpers Model.PdBase Gen.PreciseDiff Model.RustPreciseDiff Model.PdInterval Model.PdHistory.
 Import ListNotations.
 Open Scope Z_scope.
 
-Definition zb (z : Z) : bool := negb (z =? 0).
-Definition of_pd (r : result pdiff) : list Z :=
-  match r with
-  | Ok p => [0; pd_years p; pd_months p; pd_days p; pd_hours p; pd_minutes p; pd_seconds p; pd_microseconds p; pd_total_days p]
-  | Raise e => [1; exn_code e]
-  end.
-Definition of_dt (r : result pdt) : list Z :=
-  match r with
-  | Ok d => [0; p_year d; p_month d; p_day d; p_hour d; p_minute d; p_second d; p_microsecond d]
-  | Raise e => [1; exn_code e]
-  end.
-Definition of_ivc (r : result ivc) : list Z :=
-  match r with
-  | Ok c => [0; iv_years c; iv_months c; iv_weeks c; iv_remaining_days c; iv_hours c; iv_minutes c; iv_remaining_seconds c;
-             iv_microseconds c; iv_in_months c; iv_in_days c]
-  | Raise e => [1; exn_code e]
-  end.
-
-(* the Python function with the TypeError of `d1 > d2` on operands of different kinds (raised after the ValueError test) *)
-Definition py_pd (a b : pdt) : result pdiff :=
-  match py_precise_diff a b with
-  | Raise e => Raise e
-  | Ok r => if p_eqb a b then Ok r else if negb (p_comparable a b) then Raise E_TypeError else Ok r
-  end.
-Definition rs_pd (a b : pdt) : result pdiff := Ok (rs_precise_diff a b).
-
-Definition in_domain (a : pdt) : bool := negb (p_aware a) || wall_in_range (p_instant a).
-
-Definition interval_of (pd : result pdiff) (a b : pdt) : result ivc :=
-  match pd with Raise e => Raise e | Ok d => Ok (iv_components d (iv_elapsed a b)) end.
-Definition rebuild_of (pd : result pdiff) (a b : pdt) : result pdt :=
-  match interval_of pd a b with Raise e => Raise e | Ok c => dt_add_ivc a c end.
-
-Definition guard (a b : pdt) (r : list Z) : list Z := if in_domain a && in_domain b then r else [3].
+(* zb, of_pd / of_dt / of_ivc, py_pd / rs_pd, in_domain / guard, interval_of / rebuild_of and the history entry point are in Model/PdHistory.v *)
 
 Definition dispatch (fn : Z) (args : list Z) : list Z :=
   match fn, args with
@@ -68,5 +37,7 @@ Definition dispatch (fn : Z) (args : list Z) : list Z :=
   | 8 (* add_duration *), [y1;m1;d1;h1;i1;s1;u1;o1;t1;n1;b1;k1; yy;mo;ww;dd;hh;mi;ss;us] =>
       let a := mkpdt y1 m1 d1 h1 i1 s1 u1 o1 (zb t1) n1 b1 (zb k1) in
       of_dt (pd_add_duration a yy mo ww dd hh mi ss us)
+  | 9 (* py_history *), a => dispatch_history false a
+  | 10 (* rs_history *), a => dispatch_history true a
   | _, _ => [9]
   end.
